@@ -460,6 +460,14 @@ func runGen(ci interface{}, s *vkit.Stats) error {
 			want = vkit.Value(reflect.TypeOf(0), c.Code)
 			b.Struct(gi.StructArg).Method("Count").Return(want.Interface())
 			mi = 1
+		case "Sum5":
+			want = vkit.Value(reflect.TypeOf(0), c.Code)
+			b.Struct(gi.StructArg).Method("Sum5").Return(want.Interface())
+			mi = 4
+		case "WideLen":
+			want = vkit.Value(reflect.TypeOf(0), c.Code)
+			b.Struct(gi.WideArg).Method("Len").Return(want.Interface())
+			mi = 5
 		default:
 			want = vkit.Value(gi.ElemType, c.Code)
 			b.Func(gi.ZeroFn).Return(want.Interface())
@@ -475,6 +483,10 @@ func runGen(ci interface{}, s *vkit.Stats) error {
 			return g.Get()
 		case "Count":
 			return reflect.ValueOf(g.Count())
+		case "Sum5":
+			return reflect.ValueOf(g.Sum5())
+		case "WideLen":
+			return reflect.ValueOf(g.WideLen())
 		}
 		return g.Zero()
 	}
@@ -489,7 +501,7 @@ func runGen(ci interface{}, s *vkit.Stats) error {
 			return fmt.Errorf("%s.Get mocked with a callback: it ran %d times and saw receiver %v, the instance is %#x", gi.Name, cbRec.Calls, descAll(cbRec.Args), reflect.ValueOf(gi.Recv).Pointer())
 		}
 	}
-	if !vkit.Same(got, want) && !(c.Method == "Count" && got.Int() == want.Int()) {
+	if !vkit.Same(got, want) && !((c.Method == "Count" || c.Method == "Sum5" || c.Method == "WideLen") && got.Int() == want.Int()) {
 		return fmt.Errorf("%s.%s stubbed to return %s, caller got %s", gi.Name, c.Method, vkit.Describe(want), vkit.Describe(got))
 	}
 	// instantiations of a different shape are untouched; the other methods of the mocked instantiation too
@@ -539,7 +551,7 @@ func TestVerifC06Generics(t *testing.T) {
 		New: func() interface{} { return &genCase{} },
 		Gen: func(rt *rapid.T) interface{} {
 			return &genCase{Inst: rapid.IntRange(0, len(corpus.GenInsts)-1).Draw(rt, "inst"),
-				Method: rapid.SampledFrom([]string{"Get", "Count", "Zero", "GetCallback"}).Draw(rt, "method"),
+				Method: rapid.SampledFrom([]string{"Get", "Count", "Zero", "GetCallback", "Sum5", "WideLen"}).Draw(rt, "method"),
 				Code:   uint64(vkit.ValueCode().Draw(rt, "code"))}
 		},
 		Run: runGen}
